@@ -17,7 +17,7 @@ class C14(Prop):
     level_note = 'Trusted: Lean kernel + standard axioms; datetime arithmetic; the virtual clock patches rsocket.lease.datetime.'
     design_ref = '§5 C14'
     rule = ('sequences of LEASE frames (count 0..5, ttl 0..400 ms) and requests of the four request types at non-decreasing virtual times (incl. exactly at expiry), queue size 0/1/3, with '
-            'and without fragmentation, and reconnects in between (each connection starts without a lease), on a client that may also grant leases of its own to the peer at any moment, or (a third of the histories without reconnects) on the server-side endpoint as lease-honouring requester; the number of requests held at once is compared with the configured queue size; responder (a server, or a client that grants leases): published leases with counts and time-to-live from 1 ms to the 31-bit maximum incl. sub-second parts, whole days and more than a day; every request must be accounted for at the end (sent, refused, or still held); non-trivial = a request was held and later released, refused, or '
+            'and without fragmentation, and reconnects in between (each connection starts without a lease), on a client that may also grant leases of its own to the peer at any moment, or (a third of the histories without reconnects) on the server-side endpoint as lease-honouring requester; the number of requests held at once is compared with the configured queue size; responder (a server, or a client that grants leases; leases built at publication time or prepared up to 3 s earlier): published leases with counts and time-to-live from 1 ms to the 31-bit maximum incl. sub-second parts, whole days and more than a day; every request must be accounted for at the end (sent, refused, or still held); non-trivial = a request was held and later released, refused, or '
             'sent under a lease close to expiry; distinct = distinct history')
     assumptions = ['whole-millisecond time-to-live values']
 
